@@ -1,9 +1,9 @@
 \* C13 closed configuration (quick): every atom shape (3612) as the focus atom at every position
-\* of every list shape (1..2 conjuncts x 1..2 alternatives, at most 3 atoms), context atoms are bare names (the thorough configuration also has context atoms with every part)
+\* of every list shape (1..2 conjuncts x 1..2 alternatives, at most 2 atoms), context atoms are bare names (the thorough configuration also has context atoms with every part)
 CONSTANTS
   MaxConj = 2
   MaxAlt = 2
-  MaxAtoms = 3
+  MaxAtoms = 2
   MaxArch = 2
   MaxGroups = 2
   MaxTerms = 2
@@ -13,6 +13,8 @@ CONSTANTS
   RestrictionsFirst = FALSE
   IgnoreNegation = FALSE
   PipeFirst = FALSE
+  FormatInKeyOrder = FALSE
+  KeyOrders <- OneKeyOrder
 SPECIFICATION Spec
 INVARIANT AllProps
 CHECK_DEADLOCK FALSE
